@@ -684,6 +684,10 @@ func decodePacket(netcompat bool, buf []byte) (packet, NodeID, []byte, error) {
 	if !netcompat {
 		x = len("aqua")
 	}
+	if len(sigdata) < 1+x {
+		// correctly hashed and signed, but the signed part ends inside the tag
+		return nil, fromID, hash, errPacketTooSmall
+	}
 	s := rlp.NewStream(bytes.NewReader(sigdata[1+x:]), 0)
 	err = s.Decode(req)
 	return req, fromID, hash, err
